@@ -81,20 +81,21 @@ def get_broadcast_change_iter(modified_settings, is_cancel=False):
                                    key=lambda x: (x[0], x[1])):
         # sorted by (point, namespace)
         point, namespace, setting = modified_setting
-        value = setting
-        keys_str = ""
-        while isinstance(value, dict):
-            key, value = next(iter(value.items()))
-            if isinstance(value, dict):
-                keys_str += "[" + key + "]"
-            else:
-                keys_str += key
-                yield {
-                    "change": change,
-                    "point": point,
-                    "namespace": namespace,
-                    "key": keys_str,
-                    "value": str(value)}
+        # (a setting may hold several keys at any level, e.g. when sent as
+        # one dictionary through the API: report every leaf)
+        stack = [("", setting)]
+        while stack:
+            keys_str, value = stack.pop(0)
+            for key, val in value.items():
+                if isinstance(val, dict):
+                    stack.append((keys_str + "[" + key + "]", val))
+                else:
+                    yield {
+                        "change": change,
+                        "point": point,
+                        "namespace": namespace,
+                        "key": keys_str + key,
+                        "value": str(val)}
 
 
 def get_broadcast_change_report(modified_settings, is_cancel=False):
